@@ -26,6 +26,7 @@ def pkg_verdicts(wt):
 def main():
     pid, outdir = sys.argv[1], sys.argv[2]
     tag = ""
+    reuse = False
     checks = [pid]
     args = sys.argv[3:]
     while args:
@@ -34,6 +35,8 @@ def main():
             tag = "-" + args.pop(0)
         elif a == "--checks":
             checks = args.pop(0).split(",")
+        elif a == "--reuse":
+            reuse = True
     wt = "/tmp/sv-%s%s" % (pid, tag)
     sh("git -C /repo worktree remove --force %s" % wt)
     rc, o = sh("git -C /repo worktree add -q %s HEAD" % wt)
@@ -42,13 +45,22 @@ def main():
     try:
         readme = open(os.path.join(outdir, "README.txt")).read() if os.path.exists(os.path.join(outdir, "README.txt")) else ""
         # demo files: everything in outdir except patch.diff / README.txt; target path = noted in README or guessed
-        demos = [f for f in os.listdir(outdir) if f not in ("patch.diff", "README.txt") and not f.endswith("~")]
+        demos = [f for f in os.listdir(outdir) if f.endswith(".go") or os.path.isdir(os.path.join(outdir, f))]
         base_v, _ = pkg_verdicts(wt)
         # place demos (without the patch) and run them
         placed = []
+        placed_src = []
         for f in demos:
-            m = re.search(r"([\w./-]*" + re.escape(f) + r")", readme)
-            rel = m.group(1).lstrip("./") if m and "/" in m.group(1) else None
+            cands = [x.lstrip("./") for x in re.findall(r"([\w./-]*" + re.escape(f) + r")", readme) if "/" in x.lstrip("./")]
+            cands = [x[len("tmp/seed-%s/" % pid):] if x.startswith("tmp/seed-") else x for x in cands]
+            rel = cands[0] if cands else None
+            if rel is None and f.endswith(".go"):
+                # fall back to the package clause: look for the directory whose package name matches
+                pk = re.search(r"^package (\w+)", open(os.path.join(outdir, f)).read(), re.M)
+                if pk:
+                    rc0, found = sh("grep -rl --include=*.go '^package %s$' . | head -1" % pk.group(1).replace("_test", ""), cwd=wt)
+                    if found.strip():
+                        rel = os.path.join(os.path.dirname(found.strip().lstrip("./")), f)
             src = os.path.join(outdir, f)
             if os.path.isdir(src):
                 rel = rel or f
@@ -59,6 +71,7 @@ def main():
                 os.makedirs(os.path.dirname(os.path.join(wt, rel)), exist_ok=True)
                 shutil.copy(src, os.path.join(wt, rel))
             placed.append(rel)
+            placed_src.append(src)
         meta["demo_files"] = placed
         def run_demo():
             res = []
@@ -71,8 +84,23 @@ def main():
                     rc, out = sh("go run ./%s 2>&1" % d, cwd=wt, timeout=600)
                 res.append((rel, rc, out[-1500:]))
             return res
+        def place():
+            for f, rel in zip(placed_src, placed):
+                if os.path.isdir(f):
+                    shutil.copytree(f, os.path.join(wt, rel), dirs_exist_ok=True)
+                else:
+                    os.makedirs(os.path.dirname(os.path.join(wt, rel)), exist_ok=True)
+                    shutil.copy(f, os.path.join(wt, rel))
+        def unplace():
+            for rel in placed:
+                q = os.path.join(wt, rel)
+                if os.path.isdir(q):
+                    shutil.rmtree(q)
+                elif os.path.exists(q):
+                    os.remove(q)
         clean = run_demo()
         meta["demo_without_change"] = [{"file": r, "exit": rc} for r, rc, _ in clean]
+        unplace()
         rc, o = sh("git apply %s" % os.path.join(outdir, "patch.diff"), cwd=wt)
         meta["applies"] = rc == 0
         if rc != 0:
@@ -80,9 +108,18 @@ def main():
         rc, o = sh("go build ./... && go build -tags verif ./...", cwd=wt)
         meta["builds"] = rc == 0
         mut_v, _ = pkg_verdicts(wt)
+        # the machine is loaded and a few timing tests flake: re-run packages whose verdict changed
+        for k in [k for k, v in base_v.items() if mut_v.get(k) != v]:
+            for _ in range(3):
+                rc2, _o = sh("go test -vet=off -count=1 %s 2>&1" % k.replace("github.com/cnotch/ipchub", "."), cwd=wt)
+                if (rc2 == 0) == (base_v[k] == "ok"):
+                    mut_v[k] = base_v[k]
+                    break
+        flaky = ("service/wsp", "network/socket/listener")
         meta["existing_tests_same_verdicts"] = all(mut_v.get(k) == v for k, v in base_v.items()
-                                                   if "service/wsp" not in k)
+                                                   if not any(f in k for f in flaky))
         meta["verdict_changes"] = {k: (v, mut_v.get(k)) for k, v in base_v.items() if mut_v.get(k) != v}
+        place()
         dirty = run_demo()
         meta["demo_with_change"] = [{"file": r, "exit": rc, "tail": out[-600:]} for r, rc, out in dirty]
         meta["demo_discriminates"] = bool(placed) and all(rc == 0 for _, rc, _ in clean) and any(rc != 0 for _, rc, _ in dirty)
@@ -91,6 +128,10 @@ def main():
             p = os.path.join(wt, rel)
             shutil.rmtree(p) if os.path.isdir(p) else os.remove(p)
         meta["checks"] = {}
+        prev = os.path.join(ROOT, "seeded", pid + tag, "meta.json")
+        if reuse and os.path.exists(prev):
+            meta["checks"] = json.load(open(prev)).get("checks", {})
+            checks = [c for c in checks if c not in meta["checks"]]
         for c in checks:
             t0 = time.time()
             rc, o = sh("python3 bin/check %s --tier quick" % c, cwd=ROOT, env=dict(ENV, VERIF_REPO=wt), timeout=3000)
